@@ -116,6 +116,32 @@ def verdict_of(ctx, abstract, layout):
     return ctx.model.ask("(7 2 %s %s)" % (rowref.rows_sexp(rows), flowutil.flow_sexp(flow))), rows, headers, cells, flow
 
 
+def minimise(ctx, abstract, layout, budget=200):
+    """a smaller sheet that still compiles, still has a reference meaning and is still rejected by the checker: rows,
+    then single edges, are left out greedily (a row that others name cannot go: the sheet would not compile)"""
+    cur = abstract
+    changed = True
+    while changed and budget > 0:
+        changed = False
+        for i in reversed(range(len(cur))):
+            if len(cur) <= 1 or budget <= 0:
+                break
+            cand = cur[:i] + cur[i + 1:]
+            budget -= 1
+            if verdict_of(ctx, cand, layout)[0] == "2":
+                cur, changed = cand, True
+        for i in range(len(cur)):
+            for j in reversed(range(len(cur[i]["edges"]))):
+                if len(cur[i]["edges"]) <= 1 or budget <= 0:
+                    break
+                cand = copy.deepcopy(cur)
+                del cand[i]["edges"][j]
+                budget -= 1
+                if verdict_of(ctx, cand, layout)[0] == "2":
+                    cur, changed = cand, True
+    return cur
+
+
 def model_agrees(ctx, rows, headers, cells, flow):
     """the compiler MODEL (Comp/Compile.v, extracted) against the flow the implementation compiled from this sheet:
     the whole rendered flow up to a renaming of invented uuids (comp_corr.py; C01 runs this on its own sheets, here
@@ -221,6 +247,7 @@ def judge(ctx, rows, layout_rng, nontrivial, samples, wf=True, model_too=False):
         else:
             clash, bclash = name_clashes(rows), bucket_clashes(rows)
             key = "control-flow-differs"
+            failing = abstract
             if clash or bclash:
                 # the known findings are about EXPLICIT names that are also the name of another category.  Are they
                 # why this sheet fails?  The same sheet with those names replaced by names nothing else has:
@@ -240,8 +267,17 @@ def judge(ctx, rows, layout_rng, nontrivial, samples, wf=True, model_too=False):
                     ref2 = parse_sexp(m.ask("(7 1 %s)" % rowref.rows_sexp(rows2)))
                     tr2 = flowutil.distinguishing_trace(rowref.flow_from_sexp(ref2[0]), flow2) if ref2 else None
                     if tr2 is not None:
-                        rows, headers, cells, tr, clash, bclash = rows2, headers2, cells2, tr2, set(), set()
+                        rows, headers, cells, tr, clash, bclash, failing = rows2, headers2, cells2, tr2, set(), set(), declash(abstract)
                     ctx.count("failing sheets that still fail once the clashing explicit names are replaced")
+            if key == "control-flow-differs" and v.viol_by_key.get(key, 0) < 2 and not any(k["key"] == key for k in v.known):
+                # this one is written out as a replay: make it small
+                small = minimise(ctx, failing, layout)
+                res3, rows3, headers3, cells3, flow3 = verdict_of(ctx, small, layout)
+                ref3 = parse_sexp(m.ask("(7 1 %s)" % rowref.rows_sexp(rows3))) if res3 == "2" else None
+                tr3 = flowutil.distinguishing_trace(rowref.flow_from_sexp(ref3[0]), flow3) if ref3 else None
+                if tr3 is not None:
+                    ctx.count("replays minimised: rows %d -> %d" % (len(rows), len(rows3)))
+                    rows, headers, cells, tr = rows3, headers3, cells3, tr3
             v.failing_input(key,
                             (f"explicit category name(s) {sorted(clash | bclash)!r} are also the name of another category of the router; " if key != "control-flow-differs" else "")
                             + f"input/outcome sequence {tr!r} separates the rows' meaning from the compiled flow",
